@@ -334,7 +334,7 @@ def main(argv=None):
     ck.prove()
     have_driver = ck.driver()
 
-    n_rand, n_bad = (700, 250) if ck.tier == "quick" else (40000, 12000)
+    n_rand, n_bad = (700, 250) if ck.tier == "quick" else (24000, 8000)
     cases = boundary_cases()
     if ck.tier == "quick":
         # the full grid (3888 streams) runs in the thorough tier; quick keeps every p and data pattern and a
